@@ -34,7 +34,7 @@ from ..gen import sheets as G
 MANIFEST = dict(
     text="Proof: Lean theorem strip_renaming_invariant (for every flow, every injective renaming of identifiers, both id modes, and every header-order / CSV-export function of uuid-free data, the stripped sheet of the renamed flow equals the stripped sheet of the flow) over a line-by-line model of FlowContainer.to_rows (DFS with visited/completed sets, reverse child order, go_to rows with fresh ids, temp-id remapping) that is polymorphic in the identifier type; stripped_rows_U_free (the output type has no identifier component), toRows_temp_ids_nodup (DFS invariant), numbered_ids (ids are 1..n in row order), named_ids_nodup (unique, never 'start'), toRows_fuel_sufficient / remap_only_key_error (the model's fuels are never exhausted), needs_injective (negative witness, replayed on the real exporter), tables_agree (excluded headers = headers of the uuid-carrying row fields). Tied to the code by a differential run model-vs-real to_rows on generated and compiled flows, and the statement itself is evaluated on the REAL flows_to_sheets --strip_uuids: byte-identical CSV files under random / order-reversing / non-UUID / swapping / permuting bijective renamings of all uuids, no uuid in any cell.",
     ref="§5 C17",
-    note="Trusts: Lean kernel (axioms audited each run), the differential harness and Driver JSON codec; action/router content of a row and edge labels are opaque uuid-free strings supplied by the harness from the real objects (their uuid-freeness is checked by the cell scan, not proved); RowParser.unparse_row, networkx.topological_sort and tablib CSV export are uninterpreted functions of the uuid-free rows. WhatsApp template ids are not in the statement's renaming list and are held fixed; that they survive --strip_uuids is known finding F-C17-a.",
+    note="Trusts: Lean kernel (axioms audited each run), the differential harness and Driver JSON codec; action/router content of a row and edge labels are opaque uuid-free strings supplied by the harness from the real objects (their uuid-freeness is checked by the cell scan, not proved); RowParser.unparse_row, networkx.topological_sort and tablib CSV export are uninterpreted functions of the uuid-free rows. WhatsApp template ids are not in the statement's renaming list and are held fixed; since fix F-C17-a (/repo) --strip_uuids excludes the wa_template.uuid column as well.",
     technique="Lean 4 proof (equivariance of the exporter DFS under injective renamings; parametricity of the stripped output) + metamorphic oracle on the real CLI path + model/code correspondence",
 )
 
